@@ -6,7 +6,7 @@ import copy
 import itertools
 
 from clientlib import call_tokens, cfg_tok, key_tok, run_call
-from common import Ctx, hx, import_repo
+from common import FakeClock, Ctx, hx, import_repo
 from fakesock import FakeSocketModule, World
 from refserver import RefServer
 
@@ -359,7 +359,7 @@ def main(argv):
     from pymemcache.client.hash import HashClient
     wclock = [100.0]
     real_ht = hash_mod.time
-    hash_mod.time = type("T", (), {"time": staticmethod(lambda: wclock[0])})
+    hash_mod.time = FakeClock(lambda: wclock[0])
     wcalls = [{"op": "set", "k": "k", "v": b"v", "e": 100, "nr": False, "fl": 7}, {"op": "add", "k": "k", "v": b"v", "e": -1, "nr": True}, {"op": "replace", "k": "k", "v": b"v", "e": 5, "nr": False},
               {"op": "append", "k": "k", "v": b"v", "nr": False}, {"op": "prepend", "k": "k", "v": b"v", "nr": None}, {"op": "cas", "k": "k", "v": b"v", "cas": b"12", "e": 9, "nr": False, "fl": 3},
               {"op": "gat", "k": "k", "e": 300}, {"op": "gats", "k": "k", "e": 30}, {"op": "touch", "k": "k", "e": 77, "nr": False}, {"op": "incr", "k": "k", "d": 5, "nr": False},
